@@ -20,7 +20,7 @@ COMPONENTS = {"real": ["Exchange", "LimitOrderBook", "Broker", "Rebalancing", "T
               "harness": ["user-defined AbstractContract subclasses", "Fraction ledger", "three-valued need model"], "stub": []}
 PROBE_FLOORS = {"valuation_with_missing_liq_quote": 100, "rebalance_must_fail": 100, "rebalance_either": 10,
                 "failed_rebalance_left_positions_unchanged": 100, "env_step_failed_atomically": 40,
-                "env_step_with_flat_contract_unquoted": 40}
+                "env_step_with_flat_contract_unquoted": 40, "env_episode_starts_after_discontinuation_in_latency_window": 4}
 
 PROFILE = {
     "oracles": ["c13", "c01"],
@@ -53,8 +53,18 @@ def generate_epi(rng, i):
     k0 = rng.randint(1, len(grid) - 1)
     kind = rng.choice(["bid", "ask", "both", "disc"])
     span = rng.randint(1, 3)
+    fold = None
     if kind == "disc":
-        env["events"].append({"t": grid[k0], "type": "disc", "c": victim, "id": 9000})
+        t_disc = grid[k0]
+        if env["latency_us"] > 0 and rng.random() < 0.5:
+            # the discontinuation lands inside the latency window after the previous timestep; half of the time the
+            # episode starts right there (a later fold), so the event belongs to the history replayed at reset
+            from datetime import timedelta
+            t_disc = core.iso(core.parse_t(grid[k0 - 1]) + timedelta(microseconds=max(1, env["latency_us"] // 2)))
+            if rng.random() < 0.5 and k0 < len(grid) - 1:
+                env["folds"] = {"a": [grid[0], grid[k0 - 1]], "b": [grid[k0], grid[-1]]}
+                fold = "b"
+        env["events"].append({"t": t_disc, "type": "disc", "c": victim, "id": 9000})
     else:
         for e in env["events"]:
             if e["type"] == "nbbo" and e["c"] == victim and grid[k0] <= e["t"] < (grid[k0 + span] if k0 + span < len(grid) else "9999"):
@@ -62,7 +72,7 @@ def generate_epi(rng, i):
                     e["bid"] = NAN
                 if kind in ("ask", "both"):
                     e["ask"] = NAN
-    script = gen_epi.full_episode_script(rng, env)
+    script = gen_epi.full_episode_script(rng, env, fold=fold)
     hold = rng.choice(["long", "short", "flat", "random"])
     for op in script:
         if op["op"] == "step" and hold != "random":
@@ -70,7 +80,7 @@ def generate_epi(rng, i):
             a[victim] = {"long": 0.3, "short": -0.3, "flat": 0.0}[hold]
             op["action"] = a
     return {"kind": "epi", "envs": [env], "clock0": "1999-01-01T00:00:00", "script": script, "prng": rng.randrange(2 ** 31),
-            "meta": {"victim": victim, "k0": k0, "fault": kind, "hold": hold}}
+            "meta": {"victim": victim, "k0": k0, "fault": kind, "hold": hold, "fold": fold}}
 
 
 def execute_epi(scenario):
@@ -93,14 +103,37 @@ def execute_epi(scenario):
                 out.append(sym)
         return out
 
+    from tesim import gen_epi
+    from tesim.epimodel import Delivery
+    env_spec = scenario["envs"][0]
+    dmodel = Delivery(env_spec, gen_epi.auto_disc(env_spec))
+
+    def merged(lib_books, model_books):
+        """What is quoted according to the scenario (the delivery model), falling back on the library's book
+        for symbols the model has not seen: a quote the library shows for a contract the scenario says is
+        discontinued or unquoted does not count."""
+        out = dict(lib_books)
+        for sym, b in (model_books or {}).items():
+            if sym != "__rate__":
+                out[sym] = b
+        return out
+
     for ep in h.episodes:
         if ep["failed"]:
             break
+        steps_model = epicheck.visited_steps(dmodel, env_spec, ep)
+        if meta.get("fold"):
+            probe("env_episode_starts_after_discontinuation_in_latency_window")
         for st in ep["steps"]:
             if st["done_before"]:
                 break
             k = st["k"]
             ex = [r for r in sim.sink.records if r["kind"] == "EXEC" and st["seq"] < r["seq"] < st["end_seq"]]
+            if steps_model is not None and k < len(steps_model) - 1:
+                for r in ex:
+                    r["books"] = merged(r["books"], epicheck.expected_books(dmodel, h, steps_model, k))
+                if "books" in st:
+                    st["books"] = merged(st["books"], epicheck.expected_books(dmodel, h, steps_model, k, at_step_end=True))
             noncash = lambda d: {a: b for a, b in (d or {}).items() if a != "USD"}
             if st.get("exc") is not None:
                 if st["exc"] == "EndOfEpisodeError":
